@@ -445,7 +445,9 @@ fn stack(out: &mut Vec<GSpec>) {
             for ko in [0usize, 2, 3, 6, 7] {
                 let e = wrap(ko, &format!("{} ~ \"a\"", inner));
                 for r in ["", " ~ PEEK_ALL", " ~ POP_ALL"] {
-                    if r.is_empty() && oi == 0 {
+                    // nesting depth 2 belongs to the quick corpus: an inner attempt that succeeds after popping,
+                    // inside an outer attempt that fails afterwards, is where a restore is easily lost
+                    if r.is_empty() || (r == " ~ PEEK_ALL" && oi > 0) {
                         quick_exprs.push(format!("{}{}", e, r));
                     } else {
                         thorough_exprs.push(format!("{}{}", e, r));
